@@ -1,6 +1,6 @@
 (* C16 — UTF-8 and UTF-16 decoding constructors agree with std on every input. *)
 From Coq Require Import Lia Arith ZArith List Bool.
-From LS Require Import Base Utf8 Utf8Spec Utf8Facts Cmd Impl Exec Specs3 WF Spec Refine Main Derived Decode.
+From LS Require Import Base Utf8 Utf8Spec Utf8Facts Lossy Cmd Impl Exec Specs3 WF Spec Refine Main Derived Decode.
 From LSProps Require Import C01.
 Open Scope N_scope.
 
@@ -48,6 +48,38 @@ Proof.
   pose proof (spec_chars st n cs) as Hs. rewrite <- Hr in Hs. exact Hs.
 Qed.
 
+(* ---- the decoders themselves, on bytes / code units (Lossy.v; run against String::from_utf8_lossy / from_utf16 /
+   from_utf16_lossy by the harness over the class alphabets) ---- *)
+(* the lossy text of EVERY byte sequence is well-formed UTF-8, is the input itself when that is well formed, and is at
+   most three times as long (so with_capacity(len) can be outgrown - covered by C16_from_utf8_lossy for any capacity) *)
+Theorem C16_lossy_decoder : forall bs,
+  Valid (lossy bs) /\ (Valid bs -> lossy bs = bs) /\ (length (lossy bs) <= 3 * length bs)%nat.
+Proof. intros bs. split; [apply lossy_valid|]. split; [apply lossy_id|apply lossy_len]. Qed.
+(* the chunks the crate's loop consumes: valid pieces only, and pushing them with one U+FFFD per ill-formed subpart
+   spells exactly the lossy text *)
+Theorem C16_chunks : forall bs,
+  Forall (fun c => Valid (fst c)) (chunks_of bs) /\ lossy_text (chunks_of bs) = lossy bs.
+Proof. intros bs. split; [apply chunks_of_valid|]. rewrite <- chunks_of_text. reflexivity. Qed.
+(* hence from_utf8_lossy on bytes: whatever the capacity guess and the allocator, no UB, and unless an allocation fails
+   the text is lossy bs *)
+Theorem C16_from_utf8_lossy_bytes : forall st orc n bs,
+  Forall Valid st ->
+  let '(w, outs) := execs (world0 st orc) (lossy_ops 0 n (chunks_of bs)) in
+  WF w /\ Forall (fun o => forall u, o <> UbOut u) outs
+  /\ (forallb (fun o => negb (alloc_failure o)) outs = true -> abs w = [Some (lossy bs)]).
+Proof.
+  intros st orc n bs Hst. pose proof (C16_from_utf8_lossy st orc n (chunks_of bs) Hst (chunks_of_valid bs)) as H.
+  destruct (execs (world0 st orc) (lossy_ops 0 n (chunks_of bs))) as [w outs]. destruct H as (H1 & H2 & H3).
+  split; [exact H1|]. split; [exact H2|]. intros Ha. rewrite (H3 Ha). destruct (C16_chunks bs) as (_ & E). rewrite E. reflexivity.
+Qed.
+(* UTF-16: every decoded value is a scalar (so every push is of a char), and encoding scalars then decoding gives them
+   back with no error: from_utf16 accepts every well-formed input and yields its text *)
+Theorem C16_utf16_decoder :
+  (forall t, Forall (fun u => u < 65536) t ->
+     Forall (fun o => match o with Some c => is_scalar c = true | None => True end) (utf16_decode t))
+  /\ (forall cs, Forall (fun c => is_scalar c = true) cs -> utf16_decode (concat (map utf16_encode cs)) = map Some cs).
+Proof. split; [exact utf16_decode_scalars|exact utf16_round_trip]. Qed.
+
 (* non-vacuity: 14 bytes of input whose lossy text (3 replacement characters) outgrows the inline buffer *)
 Example C16_example :
   let cs := [([97;98;99;100;101], true); ([102;103;104;105], true); ([106;107], true)] in
@@ -57,6 +89,10 @@ Example C16_example :
 Proof. vm_compute. repeat split; reflexivity. Qed.
 
 Print Assumptions C16_utf8_valid_iff.
+Print Assumptions C16_lossy_decoder.
+Print Assumptions C16_chunks.
+Print Assumptions C16_from_utf8_lossy_bytes.
+Print Assumptions C16_utf16_decoder.
 Print Assumptions C16_from_utf8.
 Print Assumptions C16_from_utf8_lossy.
 Print Assumptions C16_from_utf16.
